@@ -424,12 +424,24 @@ func TestC02Long(t *testing.T) { report.Run(t, specC02Long, genC02Long, oracleC0
 // (b) polygon level: non collapsing polygons come back as exactly the routed boundary
 
 var specC02Poly = report.Spec{Property: "C02", Check: "C02Poly",
-	Rule: "polygon level: valid polygons (as C01, scaled by 1-6 so that most do not collapse) on synthetic grids, NetherlandsRDNewQuad and WebMercatorQuad; a requested tile matrix qualifies when the routed boundary visits every pixel centre at most once over all rings and every routed ring has >= 3 centres; " +
+	Rule: "polygon level: valid polygons (as C01, scaled by 1-6 so that most do not collapse; 1 case in 150 a smooth closed curve of 520-1500 vertices about two pixels apart) on synthetic grids, NetherlandsRDNewQuad and WebMercatorQuad; a requested tile matrix qualifies when the routed boundary visits every pixel centre at most once over all rings and every routed ring has >= 3 centres; " +
 		"oracle: the result for that tile matrix is exactly one polygon whose rings are the routed rings (cyclic, direction sensitive: shell ccw, holes cw; reversed under ReverseWindingOrder; holes in any order). " +
 		"Non-trivial: the routed ring has more vertices than the input ring (a vertex was inserted) or the polygon has an exact tie with the pixel grid. Cases where no requested tile matrix qualifies are out of scope.",
 	Assumptions: specC01.Assumptions}
 
 func genC02Poly(t *rapid.T) SnapCase {
+	if rapid.IntRange(0, report.Scale(150, 60)).Draw(t, "big") == 37 {
+		c := SnapCase{Grid: gen.RD, Q: 4, Shape: "big-smooth"}
+		g := c.Grid.MustBuild()
+		c.IDs = []int{rapid.IntRange(2, 14).Draw(t, "bigID")}
+		c.Flags = gen.DrawFlags(t)
+		c.Flags.Ignore = false
+		ring, _ := gen.BigSmooth(t, rapid.IntRange(520, report.Scale(1500, 4000)).Draw(t, "bigN"), 4)
+		if poly, anchor, ok := placeShape(t, g, c.IDs, [][]P{ring}, 4); ok {
+			c.Poly, c.Anchor = poly, anchor
+		}
+		return c
+	}
 	c := SnapCase{Grid: gen.AnyGrid(t)}
 	g := c.Grid.MustBuild()
 	c.IDs = gen.IDs(t, g, 3, maxAddressableID(g))
